@@ -1,6 +1,6 @@
 // C20: /asm/v1.  Case: <fixtures subdir> <name> <debugName> <debugId> <start> <size> <continue 0|1>
 // Outcome:  "ERR <message>"  |  "PANIC"  |
-//   "OK arch=<a> start=<n> size=<n> nbytes=<n> fend=<n|-> | <off>:<v|i> ... | <off>:<o|x|i>:<len or consumed> ..."
+//   "OK arch=<a> start=<n> size=<n> nbytes=<n> fend=<n|-> ind=<ok|bad:..|none> | <off>:<v|i> ... | <off>:<o|x|i>:<len or consumed> ..."
 //   second group = listed instructions (v = decoded, i = '.byte' invalid); third group = decoder oracle at every offset
 //   0..min(nbytes, 700): o = Ok(len), x = data exhausted(consumed), i = invalid(consumed).
 use crate::helper::Helper;
@@ -40,6 +40,48 @@ macro_rules! oracle {
         }
         out
     }};
+}
+
+/// An independent reading of the file (object crate, not samply-symbols) for the bytes at a relative address:
+///  - the admissible lengths of a read of `want` bytes: for every *allocated* section that contains the address (start <= address < end),
+///    min(want, end - address) - a read stops at the end of the section that holds the address;
+///  - the contents: the bytes the file maps at that address (through the segment / LOAD command that contains it, else through the section).
+/// None when the file is not a single object file the crate reads (e.g. a fat archive) or no allocated section contains the address.
+fn independent_bytes(path: &std::path::Path, rel: u64, want: u64) -> Option<(Vec<u64>, Vec<u8>)> {
+    use object::{Object, ObjectSection, ObjectSegment, SectionFlags};
+    let data = std::fs::read(path).ok()?;
+    let file = object::File::parse(&data[..]).ok()?;
+    let svma = file.relative_address_base().checked_add(rel)?;
+    let mut lens: Vec<u64> = Vec::new();
+    let mut longest = 0u64;
+    let mut via_section: Option<Vec<u8>> = None;
+    for section in file.sections() {
+        let allocated = match section.flags() {
+            SectionFlags::Elf { sh_flags } => sh_flags & 2 != 0,
+            _ => true,
+        };
+        let (a, n) = (section.address(), section.size());
+        if allocated && a <= svma && svma - a < n {
+            let l = want.min(n - (svma - a));
+            lens.push(l);
+            if l > longest {
+                longest = l;
+                via_section = section.data_range(svma, l).ok().flatten().map(|d| d.to_vec());
+            }
+        }
+    }
+    if lens.is_empty() {
+        return None;
+    }
+    for segment in file.segments() {
+        let (a, n) = (segment.address(), segment.size());
+        if a <= svma && svma - a < n {
+            if let Ok(Some(d)) = segment.data_range(svma, longest) {
+                return Some((lens, d.to_vec()));
+            }
+        }
+    }
+    via_section.map(|d| (lens, d))
 }
 
 pub fn run(toks: &[&str]) -> String {
@@ -104,6 +146,14 @@ fn run_inner(toks: &[&str]) -> String {
         _ => vec![],
     };
     let _ = u64::from_str("0");
-    format!("OK arch={} start={} size={} nbytes={} fend={} | {} | {}", arch, r_start, r_size, bytes.len(),
-            fend.map_or("-".to_string(), |f| f.to_string()), listed.join(" "), oracle.join(" "))
+    // ind: the independent reading of the file agrees (ok), differs (bad:<bytes read>:<bytes there>), or is not available (none)
+    let want = (decode_len as u32).saturating_add(15) as u64;
+    let ind = match independent_bytes(&PathBuf::from("/repo/fixtures").join(toks[0]).join(name), r_start, want) {
+        None => "none".to_string(),
+        Some((lens, b)) if lens.contains(&(bytes.len() as u64)) && b.len() >= bytes.len() && b[..bytes.len()] == bytes[..] => "ok".to_string(),
+        Some((lens, b)) => format!("bad:{}:{}", bytes.len(), if lens.contains(&(bytes.len() as u64)) { "other-bytes".to_string() } else { format!("{:?}", lens).replace(' ', "") }),
+    };
+    let _ = b"";
+    format!("OK arch={} start={} size={} nbytes={} fend={} ind={} | {} | {}", arch, r_start, r_size, bytes.len(),
+            fend.map_or("-".to_string(), |f| f.to_string()), ind, listed.join(" "), oracle.join(" "))
 }
